@@ -153,6 +153,9 @@ pub struct UpdateCase {
     pub representable: bool,
     /// final contents of the uninterrupted run of the same case (crash cases only)
     pub expect_final: Option<Vec<String>>,
+    /// run with a custom row validator that accepts everything (`|_, _, _| true`): outside the model
+    /// (op `updatecv`, answered `unsupported`), judged by an oracle on the implementation alone
+    pub accept_all: bool,
 }
 
 impl UpdateCase {
@@ -177,7 +180,8 @@ impl UpdateCase {
 
     pub fn encode(&self) -> String {
         let mut o = format!(
-            "update {} {} {} {}",
+            "{} {} {} {} {}",
+            if self.accept_all { "updatecv" } else { "update" },
             if self.strict_cols { 1 } else { 0 },
             hx(&self.sep),
             self.threshold,
@@ -250,10 +254,11 @@ impl UpdateCase {
         let root = self.tree.root.clone();
         let sep = self.sep.clone();
         let res = catch_unwind(AssertUnwindSafe(|| {
+            let accept_all: Validator = |_, _, _| true;
             futures::executor::block_on(runner.update_test_file(
                 &root,
                 &sep,
-                default_validator,
+                if self.accept_all { accept_all } else { default_validator },
                 default_normalizer,
                 colv,
             ))
@@ -400,7 +405,13 @@ impl UpdateCase {
                     oracle = Some(if m.starts_with("C06|") { m } else { format!("C07|{}", m) });
                 }
             }
-            if oracle.is_none() && status == "ok" && self.crash_at.is_none() && self.representable {
+            if oracle.is_none() && status == "ok" && self.crash_at.is_none() && self.accept_all {
+                // every result expectation passes under the accept-all validator: none may be rewritten
+                if let Some(m) = self.results_kept(&after) {
+                    oracle = Some(format!("C07|{}", m));
+                }
+            }
+            if oracle.is_none() && status == "ok" && self.crash_at.is_none() && self.representable && !self.accept_all {
                 // C06: re-run passes, second update is a fixed point
                 let shared2 = new_shared(self.db.clone());
                 set_current(Some(shared2.clone()));
@@ -435,6 +446,51 @@ impl UpdateCase {
             // of an uninterrupted run (checked by check.py against the K=- case of the same tree)
             (o, oracle)
         })
+    }
+
+    /// under a row validator that accepts everything, the result lines of a query that still has a
+    /// result expectation afterwards are the ones it had before
+    fn results_kept(&self, after: &[String]) -> Option<String> {
+        for ((p, old), new) in self.tree.files.iter().zip(after.iter()) {
+            let (b, a) = match (
+                parse_with_name::<DefaultColumnType>(old, p.as_str()),
+                parse_with_name::<DefaultColumnType>(new, p.as_str()),
+            ) {
+                (Ok(b), Ok(a)) => (b, a),
+                _ => continue,
+            };
+            let qs = |v: &[Record<DefaultColumnType>]| -> Vec<(String, Option<Vec<String>>)> {
+                v.iter()
+                    .filter_map(|r| match r {
+                        Record::Query { sql, expected, .. } => Some((
+                            sql.clone(),
+                            match expected {
+                                QueryExpect::Results { results, .. } => Some(results.clone()),
+                                _ => None,
+                            },
+                        )),
+                        _ => None,
+                    })
+                    .collect()
+            };
+            // (records are matched by their position among the queries only if the lists still
+            // correspond: a query answered with a statement result becomes a statement)
+            let (qb, qa) = (qs(&b), qs(&a));
+            if qb.len() != qa.len() || qb.iter().zip(qa.iter()).any(|(x, y)| x.0 != y.0) {
+                continue;
+            }
+            for ((sql, rb), (_, ra)) in qb.iter().zip(qa.iter()) {
+                if let (Some(rb), Some(ra)) = (rb, ra) {
+                    if rb != ra {
+                        return Some(format!(
+                            "{}: the validator accepts every answer, but the result lines of `{}` were rewritten: {:?} -> {:?}",
+                            p, sql, rb, ra
+                        ));
+                    }
+                }
+            }
+        }
+        None
     }
 
     /// C07 on the implementation alone: compare parse(before) with parse(after) file by file
